@@ -443,11 +443,11 @@ def run(tier="quick", root="/repo", evidence_dir=None, quiet=False):
     ])
     repo = get_repo(root)
     eng = get_e2(root)
-    rule_r1_r4(rep, repo, eng)
-    rule_r4(rep, repo)
-    rule_r3(rep, repo)
-    rule_r5(rep, repo)
-    rule_r6(rep, repo, eng)
+    rep.attempt(rule_r1_r4, rep, repo, eng)
+    rep.attempt(rule_r4, rep, repo)
+    rep.attempt(rule_r3, rep, repo)
+    rep.attempt(rule_r5, rep, repo)
+    rep.attempt(rule_r6, rep, repo, eng)
     from gridlint.props import c02
     c02.rule_dispatch(rep, repo, prefix="R2.")
     rep.extra.update({"functions_analysed": len(repo.funcs), "fixpoint_rounds": eng.rounds,
